@@ -393,6 +393,19 @@ def _const_int(a):
             return v
         if a[0] == 'const' and a[2] is not None:
             return a[2]
+        if a[0] == 'bin' and len(a) >= 4:
+            # a constant expression (`1 + 1`, `1 << 4`, `b'A' | 0x20`): constant evaluation rejects overflow, so exact integer
+            # arithmetic is what the compiler computes
+            l, r = _const_int(a[2]), _const_int(a[3])
+            if l is None or r is None:
+                return None
+            try:
+                return {'Add': lambda: l + r, 'Sub': lambda: l - r, 'Mul': lambda: l * r, 'Div': lambda: int(l / r) if r else None,
+                        'Rem': lambda: (l - r * int(l / r)) if r else None, 'Shl': lambda: l << r if 0 <= r < 128 else None,
+                        'Shr': lambda: l >> r if 0 <= r < 128 else None, 'BitOr': lambda: l | r, 'BitAnd': lambda: l & r,
+                        'BitXor': lambda: l ^ r}.get(a[1], lambda: None)()
+            except (ValueError, OverflowError):
+                return None
     return None
 
 
